@@ -28,8 +28,11 @@ CASES = {"quick": 1500, "thorough": 6000}
 
 MAGIC = {".gz": b"\x1f\x8b", ".bz2": b"BZh", ".xz": b"\xfd7zXZ\x00"}
 OPENERS = {".gz": gzip.open, ".bz2": bz2.open, ".xz": lzma.open}
-SPECIAL = ["a,b", 'q"q', "l\nm", "r\r\ns", "c\rd", "t\tu", "p;q", "v|w", " lead", "trail ", "'", "é", "日本", "😀", "x" * 60]
-LATIN = ["a,b", 'q"q', "l\nm", "r\r\ns", "c\rd", "t\tu", "p;q", "v|w", " lead", "trail ", "'", "é", "ÿ"]
+# (the last entries: characters str.splitlines() treats as line boundaries although CSV does not)
+SPECIAL = ["a,b", 'q"q', "l\nm", "r\r\ns", "c\rd", "t\tu", "p;q", "v|w", " lead", "trail ", "'", "é", "日本", "😀", "x" * 60,
+           "v\x0bt", "f\x0cf", "s\x1cs", "g\x1dg", "r\x1er", "n\x85l", "u\u2028l", "p\u2029s"]
+LATIN = ["a,b", 'q"q', "l\nm", "r\r\ns", "c\rd", "t\tu", "p;q", "v|w", " lead", "trail ", "'", "é", "ÿ",
+         "v\x0bt", "f\x0cf", "s\x1cs", "n\x85l"]
 NAMES = ["a", "b", "c d", "é", "x,y", "n1", 'q"', "items", " a", "a ", " b ", "A"]      # padded names differ from unpadded ones
 
 KINDS = {
@@ -161,9 +164,17 @@ def _lod_plan(draw, max_rows):
     return {"obj": "lod", "fmt": fmt, "suffix": suffix, "opts": opts, "items": items, "keys": keys}
 
 
+@st.composite
+def _with_history(draw, base):
+    plan = draw(base)
+    if draw(st.integers(0, 4)) == 0:
+        plan["failed_first"] = draw(st.sampled_from(["json_ascii", "json_inf", "csv_ascii", "lod_csv_ascii", "directory"]))
+    return plan
+
+
 def strategy(tier):
     m = 6 if tier == "quick" else 15
-    return st.one_of(_frame_plan(m), _frame_plan(m), _frame_plan(m), _lod_plan(m))
+    return _with_history(st.one_of(_frame_plan(m), _frame_plan(m), _frame_plan(m), _lod_plan(m)))
 
 
 def _special(v):
@@ -213,8 +224,34 @@ def _check_compression(plan, path, write_plain, ctx):
     ctx.cls("compression_checked")
 
 
+def _failed_write_first(plan, ctx):
+    """history: a write of another object that cannot succeed (text that does not fit the encoding, a value JSON cannot
+    hold, a path that is a directory) happened a moment ago in this process; the write under test must not notice"""
+    how = plan.get("failed_first")
+    if not how:
+        return
+    small = di.DataFrame(q=[1.5, float("inf")], r=["é", "日本"])
+    lod = di.ListOfDicts([{"q": float("inf"), "r": "é"}])
+    try:
+        if how == "json_ascii":
+            small.write_json(ctx.path("failed.json"), encoding="ascii", ensure_ascii=False)
+        elif how == "json_inf":
+            lod.write_json(ctx.path("failed2.json"), allow_nan=False)
+        elif how == "csv_ascii":
+            small.write_csv(ctx.path("failed.csv"), encoding="ascii")
+        elif how == "lod_csv_ascii":
+            lod.write_csv(ctx.path("failed2.csv"), encoding="ascii")
+        else:
+            getattr(small, "write_" + plan["fmt"])(os.path.dirname(ctx.path("x")))
+        ctx.cls("first_write_succeeded_after_all")
+    except Exception:
+        ctx.cls("after_a_failed_write")
+
+
 def check(plan, ctx):
     ctx.cls(f"{plan['obj']}_{plan['fmt']}{plan['suffix'] or '_plain'}")
+    if plan["obj"] == "lod":
+        _failed_write_first(plan, ctx)
     if plan["obj"] == "lod":
         return _check_lod(plan, ctx)
     fp, fmt, suffix, opts = plan["frame"], plan["fmt"], plan["suffix"], dict(plan["opts"])
@@ -250,6 +287,7 @@ def check(plan, ctx):
         else:
             small.write_json(ctx.path("prior.json"), encoding=pr["encoding"], indent=pr["indent"])
         ctx.cls("after_a_prior_write")
+    _failed_write_first(plan, ctx)
     path = ctx.path("data" + EXT[fmt] + suffix)
     writer = lambda p: getattr(data, "write_" + fmt)(p, **opts)
     ctx.call(f"write_{fmt}", writer, path)
